@@ -8,7 +8,7 @@
    [elems st i] = what iterating over the wrapper in slot i yields ([RVal v] a value, [RDangling] freed storage,
    [ROob] outside the buffer, [RNull] through a null pointer). *)
 From Common Require Import Prelude.
-From C11 Require Import Model Spec Lists Proofs Inv Inv2 Inv6 InvCor InvStep ProofsReach Frame FactsModel FactsCheck FactsSelf.
+From C11 Require Import Model Spec Lists Proofs Inv Inv2 Inv6 InvCor InvStep ProofsReach Frame Alias FactsModel FactsCheck FactsSelf.
 
 (* ---------------------------------------------------------------------------------- the invariant *)
 (* For every history: every live wrapper has ptr = nullptr <-> size() = 0, and every live OWNING wrapper
@@ -130,6 +130,55 @@ Theorem resize_tracks : forall st i a vb n v st1, reachable st ->
 Proof. exact resize_tracks_reach. Qed.
 Print Assumptions resize_tracks.
 
+(* ---------------------------------------------------------------------- self-aliasing (pointer, size) sources *)
+(* A (T *data, size_t n) argument may point into a wrapper's own storage: w_i.reset(w_j.data() + off, n) with j = i
+   ("drop the first off elements"), or through a view over the array itself.  The result is the copy of the source
+   range AS IT WAS BEFORE THE CALL: elements off .. off+n of the old contents — although the call releases the very
+   buffer the source lies in. *)
+Theorem reset_from_wrapper : forall st i j a vb off n e st1, reachable st ->
+  slot_at st i = SOwned a vb -> owning (slot_at st j) -> elems st j = Some e ->
+  step_new st (ResetWrap i j off n) = Some st1 ->
+  elems st1 i = Some (firstn n (skipn off e)).
+Proof. exact reset_from_wrapper_reach. Qed.
+Print Assumptions reset_from_wrapper.
+
+Theorem reset_from_own_range : forall st i a vb off n e st1, reachable st ->
+  slot_at st i = SOwned a vb -> elems st i = Some e ->
+  step_new st (ResetWrap i i off n) = Some st1 ->
+  elems st1 i = Some (firstn n (skipn off e)).
+Proof. exact reset_from_own_range_reach. Qed.
+Print Assumptions reset_from_own_range.
+
+(* a.reset(a.data(), a.size()) changes nothing observable *)
+Theorem reset_from_self_whole : forall st i a vb e st1, reachable st ->
+  slot_at st i = SOwned a vb -> elems st i = Some e ->
+  step_new st (ResetWrap i i 0 (length e)) = Some st1 ->
+  elems st1 i = Some e.
+Proof. exact reset_from_self_whole_reach. Qed.
+Print Assumptions reset_from_self_whole.
+
+(* an owning array built from a sub-range of another wrapper's storage copies it and leaves that wrapper unchanged;
+   a view built over it aliases exactly that sub-range *)
+Theorem from_wrapper : forall st i kd j off n e st1, reachable st -> (kd = KOwned \/ kd = KFixed) ->
+  owning (slot_at st j) -> elems st j = Some e ->
+  step_new st (FromWrap i kd j off n) = Some st1 ->
+  elems st1 i = Some (firstn n (skipn off e)) /\ elems st1 j = Some e.
+Proof. exact from_wrapper_reach. Qed.
+Print Assumptions from_wrapper.
+
+Theorem view_of_wrapper : forall st i j off n e st1, reachable st ->
+  owning (slot_at st j) -> elems st j = Some e ->
+  step_new st (FromWrap i KView j off n) = Some st1 ->
+  elems st1 i = Some (firstn n (skipn off e)).
+Proof. exact view_of_wrapper_reach. Qed.
+Print Assumptions view_of_wrapper.
+
+(* the precondition of these operations is exactly "the range lies inside the wrapper" *)
+Theorem wrapper_range_defined : forall st j off n e, reachable st -> owning (slot_at st j) ->
+  elems st j = Some e -> off + n <= length e -> exists q c, resolve_wrap st j off n = Some (q, c).
+Proof. exact resolve_wrap_defined_reach. Qed.
+Print Assumptions wrapper_range_defined.
+
 (* -------------------------------------------------------------------------------- the frame theorem *)
 (* An operation leaves every owning wrapper it does not target exactly as it was: the operation's targets are the
    slots it constructs, assigns, resets, resizes, moves from or destroys; a write through a wrapper additionally
@@ -169,7 +218,7 @@ Print Assumptions dataview_offset.
 
 (* ------------------------------------------------------------------- the source-derived fact check *)
 (* The reflective checker of PropertiesFacts.v accepts the table Model.v assumes (special members, micro-operation
-   lists interpreted over the model's heap on 80 configurations vs step_new, accessor / at() / setPtr / DataView
+   lists interpreted over the model's heap on 96 configurations vs step_new, accessor / at() / setPtr / DataView
    expressions on a grid vs set_ptr / arr_at / arr_iter / dv_index) — so a failure of PropertiesFacts.facts_match on
    the table generated from the working tree is about the source — and it rejects realistic slips: resize, the copy
    constructor or reset() without setPtr, a move constructor that does not reset its source, a FixedArrayView
@@ -268,6 +317,14 @@ Proof.
   vm_compute. repeat split; try (intros [H|H]; [discriminate H | try destruct H as [H|H]; try discriminate H; try contradiction]);
     try (intro H; exact H); try (intros [H1 H2]; discriminate H2).
 Qed.
+
+(* self-aliasing: drop the first element through the array's own data(), then the same through a view over itself *)
+Example self_reset_nonvacuous :
+  exists st1 st2 st3, step_new ex_st (ResetWrap 0 0 1 2) = Some st1 /\ elems st1 0 = Some [RVal 2; RVal 3]%N /\
+     step_new st1 (FromWrap 2 KView 0 0 2) = Some st2 /\ elems st2 2 = Some [RVal 2; RVal 3]%N /\
+     step_new st2 (ResetWrap 0 2 1 1) = Some st3 /\ elems st3 0 = Some [RVal 3]%N /\
+     elems st3 2 = Some [RDangling; RDangling].
+Proof. vm_compute. eexists. eexists. eexists. repeat split; reflexivity. Qed.
 
 Example dataview_example :
   dv_index [{| b_cells := [1;2;3;4;5;6;7;8;9;10;11;12]%N; b_cap := 12; b_rc := 1 |}]
